@@ -2,7 +2,7 @@
    This file: the CURRENT transaction metadata and the history tables (table level). The point-in-time read
    queries (which table/column/feature they test) are exercised by the read tie; see C17 notes in DESIGN.md. *)
 From Coq Require Import List ZArith String Bool Lia.
-From LV Require Import Base.Util Ledger.Types Ledger.Core Ledger.Invariants Ledger.ReplayProofs Ledger.Reads Ledger.IkProofs Ledger.HistProofs Ledger.AHistProofs.
+From LV Require Import Base.Util Ledger.Types Ledger.Core Ledger.Invariants Ledger.ReplayProofs Ledger.Reads Ledger.IkProofs Ledger.HistProofs Ledger.AHistProofs Ledger.MetaFilterProofs.
 Import ListNotations.
 Open Scope Z_scope.
 
@@ -101,6 +101,71 @@ Proof.
 Qed.
 Print Assumptions C17_pit_read_uses_history.
 
+(* ---------- metadata FILTERS at a point in time (volumes, aggregated balances, accounts) ----------
+   [vol_meta] / [agg_meta] / [ar_meta] (Ledger/Reads.v) are the metadata column of the three datasets, the column the WHERE of a
+   metadata filter runs on; [acc_meta_cur s a] is the metadata of account a in state s ('{}' if it does not exist).
+   With ACCOUNT_METADATA_HISTORY = SYNC that column holds, for EVERY address (existing at t or not), the metadata the account
+   had in the state reached at t: later saves and deletes do not leak into a filtered read of the past. *)
+Theorem C17_account_metadata_as_of_total : forall f h1 h2 t a,
+  f_acc_hist f = true -> Forall (fun no => fst no <= t) h1 -> Forall (fun no => t < fst no) h2 ->
+  ahist_at (s_ahist (run f (h1 ++ h2))) a t = acc_meta_cur (run f h1) a.
+Proof. exact account_metadata_as_of_total. Qed.
+Print Assumptions C17_account_metadata_as_of_total.
+
+Theorem C17_filter_metadata_as_of : forall f h1 h2 t a,
+  f_acc_hist f = true -> Forall (fun no => fst no <= t) h1 -> Forall (fun no => t < fst no) h2 ->
+  (forall w, w_pit w = Some t -> vol_meta (run f (h1 ++ h2)) w a = acc_meta_cur (run f h1) a) /\
+  agg_meta f (run f (h1 ++ h2)) (Some t) a = acc_meta_cur (run f h1) a.
+Proof.
+  intros f h1 h2 t a Fh H1 H2. split; [intros w Hw; apply (vol_meta_as_of f h1 h2 t w a Fh H1 H2 Hw) | apply agg_meta_as_of; assumption].
+Qed.
+Print Assumptions C17_filter_metadata_as_of.
+
+(* FULL STATEMENT for the DISABLED feature ("such a read returns the current metadata"), for the three filtered reads:
+       f_acc_hist f = false  ->  vol_meta (run f h) w a = acc_meta_cur (run f h) a   (and the same for agg_meta, ar_meta).
+   It HOLDS for aggregated balances and accounts (the handlers test the feature) and for volumes without a window ... *)
+Theorem C17_filter_history_off_partial : forall f h a,
+  f_acc_hist f = false ->
+  (forall pit, agg_meta f (run f h) pit a = acc_meta_cur (run f h) a) /\
+  (forall pit r, In r (read_accounts f (run f h) pit) -> exists x, In x (s_accounts (run f h)) /\ ar_addr r = a_addr x /\ ar_meta r = a_meta x) /\
+  (forall ins, vol_meta (run f h) {| w_pit := None; w_oot := None; w_ins := ins |} a = acc_meta_cur (run f h) a).
+Proof.
+  intros f h a Fh. split; [intros pit; apply agg_meta_history_off; exact Fh|]. split; [|reflexivity].
+  intros pit r Hr. unfold read_accounts in Hr. apply in_map_iff in Hr. destruct Hr as (x & <- & Hx). apply filter_In in Hx.
+  exists x. cbn [ar_addr ar_meta]. rewrite Fh. repeat split; [exact (proj1 Hx) | destruct pit; reflexivity].
+Qed.
+Print Assumptions C17_filter_history_off_partial.
+
+(* ... and is REFUTED for volumes with a point in time or a start time: resource_volumes.go joins the history table without
+   testing the feature; with the feature DISABLED nothing fills it, every account carries '{}' ... *)
+Theorem C17_volumes_filter_history_off : forall f h w a,
+  f_acc_hist f = false -> (w_pit w <> None \/ w_oot w <> None) -> vol_meta (run f h) w a = [].
+Proof. exact vol_meta_history_off. Qed.
+Print Assumptions C17_volumes_filter_history_off.
+
+Local Open Scope string_scope.
+(* ... witness (replayed on the real code: known_findings.d/reads.json): alice receives USD 10 at 1, gets role=v1 at 2; at
+   t = 3 the unfiltered volumes list alice, her current metadata satisfies metadata[role]=v1, the filtered volumes at 3 are
+   empty (without a point in time they list alice; aggregated balances at 3 under the same filter count her) *)
+Theorem C17_volumes_filter_history_off_refuted :
+  exists f h w q a, f_acc_hist f = false /\ w_pit w = Some 3 /\
+    (exists u row, read_volumes f (run f h) w = Some u /\ In row u /\ fst (fst row) = a) /\
+    msat q (acc_meta_cur (run f h) a) = true /\
+    read_volumes_q f (run f h) w (Some q) 0 = Some [] /\
+    read_volumes_q f (run f h) {| w_pit := None; w_oot := None; w_ins := false |} (Some q) 0 = Some [((a, "USD"), (10, 0))] /\
+    read_aggregated_q f (run f h) (Some 3) false q = Some [("USD", 10)].
+Proof.
+  exists {| f_moves := true; f_pcev := true; f_acc_hist := false; f_tx_hist := true; f_hash := true |},
+         [(1, {| o_in := ICreate [{| p_src := "world"; p_dst := "alice"; p_asset := "USD"; p_amt := 10 |}] None "" [] [] false; o_ik := ""; o_dry := false |});
+          (2, {| o_in := ISetMeta (TAcc "alice") [("role", "v1")]; o_ik := ""; o_dry := false |})],
+         {| w_pit := Some 3; w_oot := None; w_ins := false |}, (MfMatch "role" "v1"), "alice".
+  vm_compute. split; [reflexivity|]. split; [reflexivity|]. split.
+  { eexists. exists (("alice", "USD"), (10, 0)). split; [reflexivity|]. split; [right; left; reflexivity | reflexivity]. }
+  repeat split; reflexivity.
+Qed.
+Print Assumptions C17_volumes_filter_history_off_refuted.
+Local Close Scope string_scope.
+
 Local Open Scope string_scope.
 Example C17_example :
   let f := {| f_moves := true; f_pcev := true; f_acc_hist := true; f_tx_hist := true; f_hash := true |} in
@@ -110,3 +175,21 @@ Example C17_example :
             (3, {| o_in := IDelMeta (TTx 1) "k"; o_ik := ""; o_dry := false |})] in
   map t_meta (s_txs (run f h)) = [[("j", "x")]] /\ map th_meta (s_thist (run f h)) = [[("k", "v")]; [("k", "w"); ("j", "x")]; [("j", "x")]].
 Proof. vm_compute. split; reflexivity. Qed.
+
+(* metadata as of t in a filtered read: alice gets role=v1 at 2, role=v2 at 4, loses it at 6; volumes at t=3 filtered by
+   metadata[role]=v1 list her, at t=5 they do not, and `$exists role` lists her at 5 but not at 7 *)
+Example C17_filter_example :
+  let f := {| f_moves := true; f_pcev := true; f_acc_hist := true; f_tx_hist := true; f_hash := true |} in
+  let mk := fun i => {| o_in := i; o_ik := ""; o_dry := false |} in
+  let h := [(1, mk (ICreate [{| p_src := "world"; p_dst := "alice"; p_asset := "USD"; p_amt := 10 |}] None "" [] [] false));
+            (2, mk (ISetMeta (TAcc "alice") [("role", "v1")])); (4, mk (ISetMeta (TAcc "alice") [("role", "v2")]));
+            (6, mk (IDelMeta (TAcc "alice") "role"))] in
+  let at_ := fun t => {| w_pit := Some t; w_oot := None; w_ins := false |} in
+  let row := (("alice", "USD"), (10, 0)) in
+  read_volumes_q f (run f h) (at_ 3) (Some (MfMatch "role" "v1")) 0 = Some [row] /\
+  read_volumes_q f (run f h) (at_ 5) (Some (MfMatch "role" "v1")) 0 = Some [] /\
+  read_volumes_q f (run f h) (at_ 5) (Some (MfExists "role")) 0 = Some [row] /\
+  read_volumes_q f (run f h) (at_ 7) (Some (MfExists "role")) 0 = Some [] /\
+  read_aggregated_q f (run f h) (Some 5) false (MfNot (MfMatch "role" "v2")) = Some [("USD", -10)] /\
+  map ar_addr (read_accounts_q f (run f h) (Some 3) (MfMatch "role" "v1")) = ["alice"].
+Proof. vm_compute. repeat split; reflexivity. Qed.
